@@ -44,6 +44,34 @@ L['C11'] = dict(modules=['Schc.Properties.C11'], level='proof', technique='Lean 
               T('C11_no_match', 'full', 'no ID is a prefix (incl. shorter than every ID, empty) -> RuleIDMatchError'),
               T('C11_own_output', 'full', 'every output of compress with R is dispatched to R')],
     level_text='Proved for all prefix-free rule-ID sets and all bit strings. Hypothesis rules ≠ [] for the error case (the real code leaves a variable unbound on an empty rule set — outside the quantifier, reproduced by the model).')
+
+L['C15'] = dict(modules=['Schc.Properties.C15'], level='proof', technique='Lean 4 theorems on the error discipline of manager and front end',
+    theorems=[T('C15_no_rule', 'full', 'no applicable rule -> RuleDescriptorMatchError, FIRST and BEST'), T('C15_no_id', 'full', 'no rule ID is a prefix -> RuleIDMatchError'),
+              T('C15_compress_errors', 'full', 'manager compress only lets out the parser\'s error and the rule-match error'),
+              T('C15_frontend_fallthrough', 'full', 'all contexts signal ParserError / RuleDescriptorMatchError -> packet returned unchanged'),
+              T('C15_frontend_first', 'full', 'output of the first context in order that does not signal such an error'),
+              T('C15_frontend_decompress_fallthrough', 'full', 'decompress falls through on RuleIDMatchError'),
+              T('C15_frontend_roundtrip', 'full', 'what a context compressed is decompressed by it when earlier contexts do not know the ID')],
+    level_text='Proved over the model of manager.py and /repo/microschc.py for every interface configuration. That the parsers themselves raise only ParserError is C14. The round trip needs the stated hypothesis that earlier contexts of the interface raise the rule-ID error on the SCHC packet (IDs of one interface do not shadow one another) — without it no implementation can know which context compressed.')
+L['C16'] = dict(modules=['Schc.Properties.C16'], level='proof', technique='Lean 4 purity theorems over a model with operand post-states + regenerated mutation-site tables (decide) + history correspondence',
+    theorems=[T('C16_pure_shift', 'full', 'shift(inplace=False) leaves self unchanged'), T('C16_pure_pad', 'full', 'pad(inplace=False) leaves self unchanged'),
+              T('C16_pure_value', 'full', 'value() leaves self unchanged'), T('C16_pure_and', 'full', '& leaves its right operand unchanged'),
+              T('C16_pure_or', 'full', '| …'), T('C16_pure_xor', 'full', '^ …'), T('C16_pure_eq', 'full', '== leaves its operand unchanged'),
+              T('C16_pure_hash', 'full', 'hash() leaves self unchanged'), T('C16_pure_add', 'full', '+ leaves both operands unchanged'),
+              T('C16_buffer_writes', 'full', 'the attribute writes in buffer.py are exactly the reviewed ones (regenerated table)'),
+              T('C16_buffer_calls', 'full', 'every internal pad/shift call is not in-place or acts on a local copy (regenerated table)'),
+              T('C16_sites', 'full', 'the mutation sites of the SCHC-level modules are exactly the reviewed allow-list (regenerated table)')],
+    level_text='Part 1 (Buffer operands): theorems over the byte-level model whose methods return operand post-states, with the inplace flag of each internal call read from the source on this run. Part 2 (no shared object is written above the Buffer): the AST-derived table of every attribute/item assignment, mutating container call and in-place pad/shift must equal a reviewed allow-list — a new cache, memo or in-place call changes the table and breaks the obligation. Part 3 (history independence): the model is a pure function; the hist stream compares every call on long-lived manager / ruler / front end with fresh instances and snapshots all arguments.',
+    explanation='aliasing is not modelled as a heap: part 2 is a checked syntactic table plus dynamic snapshots (DESIGN.md §6 C16, §7)')
+L['C18'] = dict(modules=['Schc.Properties.C18'], level='proof', technique='Lean 4: partial theorem + machine-checked counter-example (known finding F-C18-1)',
+    theorems=[T('C18_matcher', 'full', 'the matcher uses exactly the descriptors marked d or Bi, in rule order'),
+              T('C18_same_descriptors_partial', 'partial', 'rules whose descriptors all apply to d: all three stages use the same descriptors and the packet round-trips'),
+              T('C18_witness', 'witness', 'a rule with a Dw and an Up descriptor for one field is offered for an Up packet and does not round-trip (F-C18-1)')],
+    level_text='The full statement is FALSE of the current code (compressor and decompressor ignore direction indicators; decompress has no direction parameter): proved negation with a concrete witness, listed as known finding F-C18-1 and replayed on the real code on every run. Proved: the matcher stage at full strength, and the whole property under the hypothesis that is exactly the complement of the finding\'s domain. Any failing input outside that domain is reported as a violation.')
+L['C20'] = dict(modules=['Schc.Properties.C20'], level='proof', technique='Lean 4 totality theorem (compute-free rules) + correspondence on arbitrary bit strings (compute rules)',
+    theorems=[T('C20_total', 'partial', 'bare decompress is total for every bit string, rules without compute fields'),
+              T('C20_manager_total', 'partial', 'manager decompress gives a buffer or RuleIDMatchError for every bit string, rule sets without compute fields')],
+    level_text='PARTIAL: proved for every bit string and every rule set satisfying the decompressor\'s own type asserts whose rules have no compute fields. For rules with compute fields the totality of the compute functions on partly rebuilt field lists is not yet a theorem (statement kept in Schc.C20_total_compute_statement); that part rests on the correspondence stream (truncations, 1-3 flips, random 0..2000-bit strings, id-only strings, oversized announcements against compute rules on all stacks).')
 for k in L:
     L[k]['level_note'] = NOTE
     L[k]['design_ref'] = 'DESIGN.md §6 ' + k
